@@ -320,6 +320,59 @@ def _split_walrus_tests(stmts: list[ast.stmt]) -> list[ast.stmt]:
     return out
 
 
+def _gen_returns_to_loops(stmts: list[ast.stmt]) -> list[ast.stmt]:
+    out: list[ast.stmt] = []
+    for st in stmts:
+        for fld in ("body", "orelse", "finalbody"):
+            sub = getattr(st, fld, None)
+            if isinstance(sub, list) and sub and isinstance(sub[0], ast.stmt):
+                setattr(st, fld, _gen_returns_to_loops(sub))
+        if isinstance(st, ast.Try):
+            for h in st.handlers:
+                h.body = _gen_returns_to_loops(h.body)
+        if isinstance(st, ast.Return) and st.value is not None:
+            # `return all(E for v in D if F)` -> `for v in D: if F and not E: return False` / `return True` (same short-circuit
+            # evaluation; only generator expressions, a list display evaluates every element); likewise any / not any / not all
+            v_ = st.value
+            neg_ = False
+            if isinstance(v_, ast.UnaryOp) and isinstance(v_.op, ast.Not):
+                neg_, v_ = True, v_.operand
+            if isinstance(v_, ast.Call) and isinstance(v_.func, ast.Name) and v_.func.id in ("all", "any") and len(v_.args) == 1 and not v_.keywords \
+                    and isinstance(v_.args[0], ast.GeneratorExp) and not any(isinstance(n_, (ast.Await, ast.Yield)) for n_ in ast.walk(v_)):
+                gen_ = v_.args[0]
+                is_all = v_.func.id == "all"
+                hit = ast.UnaryOp(ast.Not(), gen_.elt) if is_all else gen_.elt          # the element that decides
+                decided = (not is_all) != neg_                                          # value returned when it is found
+                inner: list[ast.stmt] = [ast.If(hit, [ast.Return(ast.Constant(decided))], [])]
+                for g_ in reversed(gen_.generators):
+                    body_: list[ast.stmt] = inner
+                    for c_ in reversed(g_.ifs):
+                        body_ = [ast.If(ast.UnaryOp(ast.Not(), c_), [ast.Continue()], []), *body_]
+                    inner = [ast.For(g_.target, g_.iter, body_, [], None)]
+                new_ = [*inner, ast.Return(ast.Constant(not decided))]
+                for n_ in new_:
+                    for ch_ in ast.walk(n_):
+                        if isinstance(ch_, (ast.stmt, ast.expr)) and not hasattr(ch_, "lineno"):
+                            ast.copy_location(ch_, st)
+                    ast.copy_location(n_, st)
+                out.extend(new_)
+                continue
+        out.append(st)
+    return out
+
+
+def loops_for_generator_returns(tree: ast.Module) -> ast.Module:
+    """second stage of the normal form, applied after new one-line helpers were replaced by their expression (sa/model.py): a
+    function that *returns* a generator predicate is written as the loop it abbreviates"""
+    for node in ast.walk(tree):
+        if isinstance(node, (ast.FunctionDef, ast.AsyncFunctionDef)):
+            node.body = _gen_returns_to_loops(node.body)
+    ast.fix_missing_locations(tree)
+    # the new `if` tests are put into normal form as well
+    out = _CanonTree().visit(tree)
+    return ast.fix_missing_locations(out)
+
+
 def canon_tree(tree: ast.Module) -> ast.Module:
     for node in ast.walk(tree):
         if isinstance(node, (ast.FunctionDef, ast.AsyncFunctionDef)):
